@@ -31,7 +31,9 @@ SPEC = {
     "at recipe and function level + direct oracle on unpatched runs",
     "level_text": "Machine-checked proof, for every (min,max,step), every weight vector, every pair of date / datetime "
     "bounds and every admissible draw, that the model's results lie on the lattice / in the support / between the "
-    "bounds and that both ends are attained; the defects D08, D09, D23, D24 are refutation theorems with witnesses "
+    "bounds and that both ends are attained; after the fix commits cfed176 / f914bf1 / e0d1353 the statements about "
+    "zero probabilities, written UTC offsets, cache aliasing and equal bounds are proved at full strength (D09, D08, "
+    "D39, D37 are regression inputs); D38 (fractional seconds, Faker) remains a refutation theorem with its witness "
     "replayed on the real code; the model is tied to the source by bridging lemmas over pins regenerated on every "
     "run and by draw-for-draw differential runs.",
     "level_note": "Trusted: Lean kernel; py2lean; the harness; CPython random.randrange/choice/choices and Faker's "
@@ -43,6 +45,7 @@ SPEC = {
         "date <-> ordinal conversion and ISO parsing are done by Python's datetime / dateutil (not modelled)",
         "weights are modelled as integers; fractional weights are covered by the direct oracle only",
         "the process time zone is UTC for `today` (date.today()); wall-clock `now` is the value cached by parse_datetimespec",
+        "datetime() is modelled for the default target zone (UTC), which is what datetime_between uses for its bounds",
     ],
     "budget": {"quick": 240, "thorough": 1500},
 }
@@ -61,17 +64,6 @@ def _tf():
 
 def _functions():
     return _tf().StandardFuncs.Functions()
-
-
-def _clear_caches():
-    """Case isolation: `parse_date` / `parse_datetimespec` are lru_cached process-wide (the cache is
-    keyed by datetime *equality*, i.e. by instant — see D25); every case starts from empty caches."""
-    tf = _tf()
-    for name in ("parse_date", "parse_datetimespec"):
-        fn = getattr(tf, name, None)
-        clear = getattr(fn, "cache_clear", None)
-        if clear:
-            clear()
 
 
 # ------------------------------------------------------------------ draw control
@@ -879,7 +871,9 @@ def oracle_dt(rep, case, real):
 
 def _aware_object(spec, via):
     """Does the bound reach parse_datetimespec as an aware datetime *object* (function argument, or an
-    unquoted YAML timestamp)?  Such keys hit the lru_cache by instant (D25)."""
+    unquoted YAML timestamp)?  Such keys hit the lru_cache by instant (D39, repaired by f914bf1: the
+    normalisation is now a function of the instant, so these cases are compared with the model like
+    any other; the caches are deliberately NOT cleared between cases)."""
     if spec[0] != "stamp" or spec[3] is None:
         return False
     return spec[4] == "obj" or (via != "func" and spec[4] != "quoted")
@@ -1087,7 +1081,7 @@ def gen_dt(rng, forced=True):
     if rng.random() < 0.15:
         case["tz"] = rng.choice([8, -5, 0, 3])
     if rng.random() < 0.08:
-        # an equal-instant object with another offset evaluated first (lru_cache aliasing, D25);
+        # an equal-instant object with another offset evaluated first (lru_cache aliasing, D39);
         # only datetime *objects* (function argument / unquoted YAML timestamp) go through the cache by value
         tgt = rng.choice(["start", "end"])
         sp = case[tgt]
@@ -1113,10 +1107,6 @@ _KINDS = {
 def _in_model_fragment(case):
     if case["draws"] and case["draws"][0] == "real":
         return False
-    if case.get("prime"):
-        return False
-    if case["kind"] == "dt" and _self_aliasing(case):
-        return False  # the end bound is served the start's cached object: not modelled (D25)
     if case["kind"] == "choice" and case["form"] != "list":
         return all(w is None or w[0] in ("int", "pct", "str") for w in case["weights"])
     return True
@@ -1159,14 +1149,13 @@ def _histogram(rep, case, real):
         if case.get("prime"):
             rep.count("dt:primed-cache")
         if _self_aliasing(case):
-            rep.count("dt:self-aliasing (oracle only)")
+            rep.count("dt:self-aliasing")
 
 
 def check_cases(cases, rep, rng):
     reqs, meta = [], []
     for case in cases:
         real_fn, oracle_fn, reqs_fn, _cmp = _KINDS[case["kind"]]
-        _clear_caches()
         real = real_fn(case, rng)
         if real is None:
             rep.count("discarded:midnight")
@@ -1286,7 +1275,6 @@ def shrink(case, signature):
         r = common.Report("C11")
         try:
             real_fn, oracle_fn, _, _ = _KINDS[c["kind"]]
-            _clear_caches()
             real = real_fn(c, random.Random(0))
             if real is not None:
                 oracle_fn(r, c, real)
